@@ -64,7 +64,12 @@ Kind(s) ==
 (* Slots and slot classes *)
 
 Slots(t) == 1..(Len(Toks[t]) + 1)
-NextKind(t, j) == IF j <= Len(Toks[t]) THEN Kind(Toks[t][j].s) ELSE "EOF"
+(* the kind of the token that follows slot j.  A comment before `:` is handed by the parser to the
+   annotation after it, so for `:` the kind includes the token after it. *)
+NextKind(t, j) ==
+  IF j > Len(Toks[t]) THEN "EOF"
+  ELSE IF Toks[t][j].s = ":" /\ j < Len(Toks[t]) THEN ":" \o Kind(Toks[t][j + 1].s)
+  ELSE Kind(Toks[t][j].s)
 Production(t, j) == IF j <= Len(Toks[t]) THEN Toks[t][j].p ELSE "module"
 
 ClassId(prod, next, ck) == prod \o "|" \o next \o "|" \o ck
